@@ -24,6 +24,7 @@ EXHAUSTIVE = {"quick": ["all byte strings of length <= 2 through every reader",
                            "all 3- and 4-byte strings starting with each reader's own tag(s) (+0x05 wrong tag)"]}
 
 _legacy_sentinel = object()
+_BL = {"i": 0}
 
 
 def _lib_bitstring(k):
@@ -97,8 +98,17 @@ def readers():
 
 def judge(ctx, name, group, libf, reff, reenc, s, stats):
     """One reader on one input.  stats: local dict for bulk counting."""
+    _BL["i"] += 1
+    arg = s
+    if _BL["i"] % 5 == 0 and s:
+        from vf import gen
+        # every fifth input in another container.  The DER primitives work on the buffer they are given (their callers in keys.py /
+        # util.py normalise first), so only the byte-oriented ones are offered here: bytes, bytearray, read-only and writable memoryview
+        arg = gen.pick_container(s, _BL["i"] // 5, wide=False, exotic=False)[1]
+        if not isinstance(arg, (bytes, bytearray, memoryview)):
+            arg = s
     try:
-        val, rest = libf(s)
+        val, rest = libf(arg)
         lib_ok, exc = True, None
     except der.UnexpectedDER:
         lib_ok, exc = False, None
